@@ -271,6 +271,10 @@ def install(w):
         if issubclass(k, BaseException) or k.__module__.startswith("graphql"):
             # a library class: only 'other' values can be instances (consistent per value/class)
             return z3.And(tg == T["other"], ISINST(t, sym.ATOMS.code(k)))
+        if isinstance(k, type) and not issubclass(k, (int, float, str, bytes, dict, list, tuple, set, frozenset)):
+            # any other class that does not derive from a modelled built-in (e.g. decimal.Decimal):
+            # its instances are 'other' values
+            return z3.And(tg == T["other"], ISINST(t, sym.ATOMS.code(k)))
         return None
     w.isinstance_ext = isinstance_ext
 
@@ -818,6 +822,21 @@ def install(w):
             sym.tag(as_dyn_t(it, v)) == T["other"],
             ISINST(as_dyn_t(it, v), sym.ATOMS.code(w.resolve_class(name.lit))))),
     })
+
+    def f_is_a(it, v, name):
+        """isinstance(v, Class) for any kind of modelled value: statically known for constructed
+        objects / exceptions, the ISINST predicate for dynamic values"""
+        from pyvc.interp import VExc
+        from pyvc.sym import VObj
+        cls = w.resolve_class(name.lit)
+        if isinstance(v, VExc):
+            return VBool(bool(isinstance(v.cls, type) and issubclass(v.cls, cls)) and bool(v.exact or issubclass(v.cls, cls)))
+        if isinstance(v, VObj) and isinstance(v.cls, type):
+            return VBool(issubclass(v.cls, cls))
+        if isinstance(v, VDyn):
+            return VBool(z3.And(sym.tag(v.t) == T["other"], ISINST(v.t, sym.ATOMS.code(cls))))
+        return VBool(False)
+    w.spec_funcs["is_a"] = f_is_a
 
     # fresh dynamic values are well formed
     from pyvc import interp as _interp
